@@ -36,7 +36,7 @@ func init() {
 type c02val struct {
 	kind   byte // 's' 'l' 'S' 'h' 'z' 'o'
 	str    []byte
-	items  [][]byte   // list / set members
+	items  [][]byte    // list / set members
 	fields [][2][]byte // hash
 	zs     []c02zmem
 }
@@ -411,6 +411,26 @@ func c02kv(tok string) (string, string) {
 const c02srvT0 = int64(1000000)
 
 func runC02(f []string) string {
+	if f[0] == "zl" { // zl <ziplist hex>: pkg/rdb's ReadZiplistLength, then that many ReadZiplistEntry (the element-wise route's reader)
+		rd := rdb.NewRdbReader(bytes.NewReader(nil))
+		buf := rdb.NewSliceBuffer(unhx(f[1]))
+		n, err := rd.ReadZiplistLength(buf)
+		if err != nil {
+			return "zl=err"
+		}
+		h := uint64(0xcbf29ce484222325)
+		for i := int64(0); i < n; i++ {
+			e, err := rd.ReadZiplistEntry(buf)
+			if err != nil {
+				return fmt.Sprintf("zl=%d short=%d", n, i)
+			}
+			for _, b := range e { // (e aliases the buffer: no append)
+				h = (h ^ uint64(b)) * 0x100000001b3
+			}
+			h = (h ^ 0xff) * 0x100000001b3
+		}
+		return fmt.Sprintf("zl=%d fp=%016x", n, h)
+	}
 	if len(f) < 3 {
 		return "badcase"
 	}
